@@ -10,3 +10,13 @@ package tss
 //@ func VerifyOwnPubKeySignature
 //@ trusted
 //@ ensures err == nil <==> validOwnPubKeySig(mid, dkgContext, signature, ownPub)
+
+// Complaint verification (DLEQ proof + decrypt-and-compare against the dealer's commitments): abstracted.
+//@ spec validComplaint(pubI Point, pubJ Point, keySym Point, sig ComplaintSignature, enc EncSecretShare, midI Int, commits Points) Bool uninterpreted
+//@ func VerifyComplaint
+//@ trusted
+//@ ensures err == nil <==> validComplaint(oneTimePubI, oneTimePubJ, keySym, complaintSignature, encSecretShare, midI, commits)
+
+// keccak256 of the concatenation of its arguments: abstract (uninterpreted hash)
+//@ func Hash
+//@ abstract
